@@ -23,11 +23,12 @@ META = {
                           "parameter tables: piece-square tables, passed-pawn masks and table as produced by the real init() of this tree (native dump)"],
     "stubs": ["six table look-ups -> geometry (C07) in the thorough mobility and whole-evaluation harnesses only"],
     "bounds": ["blend: ALL i16 (mg, eg) pairs that can be packed, phase 0..88", "per-man lemmas: every colour, kind, square; every enemy pawn set",
-               "bishop-pair term: any valid position", "thorough whole-term harnesses: see their descriptions (officers <= 1 per kind and colour where the term loops over them)"],
+               "bishop-pair term: any valid position", "mobility/king-safety: the evaluated side has at most one officer (kind by case split), everything else symbolic; "
+               "with several officers the term is the sum of the per-officer look-ups plus a king-zone count over the UNION of their attack sets - not decided beyond one officer", "thorough whole-term harnesses: see their descriptions (officers <= 1 per kind and colour where the term loops over them)"],
     "outside": ["term(mirror(P)) == -term(P) on whole boards is decided per man (quick); the step from per-man antisymmetry to the 64-term sums is commutativity of addition "
                 "plus the sum form of the loops (inspected; for the accumulators also C15's init-is-sum lemma), not a solver verdict - equality of two permuted 64-term "
                 "adder trees does not finish in SAT (measured > 30 min)",
-                "mobility / king-safety term symmetry and |eval| < 31900 for extreme material: only in thorough, may stay inconclusive"],
+                "|eval| < 31900 for extreme material and whole-term symmetry with several officers: only in thorough, may stay inconclusive"],
     "assumptions": ["mirror = colour swap + rank flip"],
     "trusted_base": ["kani 0.68.0", "cbmc 6.11.0", "cadical"],
     "explanation": "Blend kernel over all inputs; per-man antisymmetry of the table-driven terms on the real tables; whole-term statements only in thorough.",
@@ -37,9 +38,10 @@ MANIFEST = {
             "negative), packing round-trips, packed negation/addition act half-wise; (2) per man, on the real tables: the piece-square(+material) value of a man equals "
             "minus that of the colour-swapped man on the rank-flipped square (all 768 cells, magnitudes far inside an i16 half), passed-ness / mask / bonus of a pawn "
             "are mirror images for the two colours and passed-ness equals its geometric definition (every square, every enemy pawn set); the bishop-pair term is "
-            "antisymmetric on every valid position. Whole-board symmetry of the summed terms follows by commutativity of addition; whole-term and whole-evaluation "
+            "antisymmetric on every valid position; the mobility/king-safety term of a side with at most one officer (each kind, or none) equals the other side's term "
+            "on the mirrored position with everything else symbolic. Whole-board symmetry of the summed terms follows by commutativity of addition; whole-term and whole-evaluation "
             "harnesses exist in thorough but the solver may not finish them.",
-    "note": "Mobility/king-safety symmetry and boundedness for extreme material are not decided in quick; the sum step is an argument, not a solver verdict.",
+    "note": "Mobility/king-safety symmetry only with one officer on the evaluated side; boundedness for extreme material not decided in quick; the sum step is an argument, not a solver verdict.",
     "design_ref": "DESIGN.md s.4 C16",
 }
 DUMP = ["PST", "PP"]
@@ -69,6 +71,15 @@ def jobs(tier, seed):
             min_covers=2),
         Job("c16_sym_material", "bishop-pair term antisymmetric under mirroring, any valid position", timeout=900, witness=False, checks="functional"),
     ]
+    KN = ["none", "knight", "bishop", "rook", "queen"]
+    for kind in range(5):
+        for side in (0, 1):
+            name = f"c16_mobility_one_{KN[kind]}_{'wb'[side]}"
+            attrs = ["#[kani::proof]", "#[kani::unwind(9)]"] + [f"#[kani::stub({a}, {b})]" for a, b in GEOM_STUBS]
+            src = "\n".join(attrs) + f"\npub fn {name}() {{ c16::mobility_one({kind}, {side}); }}\n"
+            js.append(Job(name, f"mobility/king-safety term of {'white' if side == 0 else 'black'} with at most one officer ({KN[kind]}) == the other side's term on the mirrored "
+                                "position; everything else symbolic", gen=src, timeout=t, mem_gb=20, weight_gb=4, witness=False, checks="functional",
+                          params={"officer": KN[kind], "side": "wb"[side]}))
     if tier == "thorough":
         # whole-term statements on symbolic boards: equality of two 64-term sums in different order is hard for SAT; long caps, may stay inconclusive
         js += [
